@@ -993,26 +993,27 @@ theorem any_perm_eq {l l' : List Str} (q : Str → Bool)
     exact ha x (by simpa using this)
 
 theorem register_tail {st1 : St} (hi1 : Inv st1) (u0 : User) (hu0 : u0 ∈ st1.db.users)
-    (hn : hasLineBreak u0.name = false) (h : Option Str) :
-    Inv (match h with
-      | none => ((setUser st1 u0).1, outOfUnit (setUser st1 u0).2)
-      | some h =>
-        match addHostmask u0 h with
-        | .error e => (st1, Out.err e)
-        | .ok u1 =>
-          ((setUser { st1 with db := st1.db.putUser u1 } u1).1,
-            outOfUnit (setUser { st1 with db := st1.db.putUser u1 } u1).2)).1 := by
+    (hn : hasLineBreak u0.name = false) (h : Option Str) : Inv (registerTail st1 u0 h).1 := by
+  unfold registerTail
   cases h with
-  | none => exact setUser_inv hi1.recs _ hn
+  | none =>
+    dsimp only
+    have hs := setUser_inv hi1.recs u0 hn
+    split
+    · exact hs
+    · exact delUser_inv hs _
   | some h =>
-    simp only
+    dsimp only
     cases ha : addHostmask u0 h with
-    | error e => exact hi1
+    | error e => exact delUser_inv hi1 _
     | ok u1 =>
-      simp only
+      dsimp only
       obtain ⟨hid, hnm⟩ := addHostmask_same ha
       have hrec := recInv_put_same (u := u1) hi1.recs ⟨u0, hu0, hid.symm, hnm.symm⟩
-      exact setUser_inv hrec u1 (by rw [hnm]; exact hn)
+      have hs := setUser_inv hrec u1 (by rw [hnm]; exact hn)
+      split
+      · exact hs
+      · exact delUser_inv hs _
 
 theorem step_inv {st : St} (hi : Inv st) (op : Op) : Inv (step st op).1 := by
   cases op with
@@ -1375,19 +1376,39 @@ theorem revOK_fold {st : St} (h : RevOK st.hc) (l : List (Int × Str)) :
   | nil => exact h
   | cons e es ih => simp only [List.foldl_cons]; exact ih (revOK_invalidateHost h e.2)
 
+theorem revOK_delUser' {st : St} (h : RevOK st.hc) (id : Nat) : RevOK (delUser st id).1.hc := by
+  unfold delUser
+  split
+  · exact h
+  · exact revOK_invalidateId revOK_empty id
+
+theorem revOK_registerTail (st1 : St) (u0 : User) (hm : Option Str) (h : RevOK st1.hc := by assumption) :
+    RevOK (registerTail st1 u0 hm).1.hc := by
+  unfold registerTail
+  cases hm with
+  | none =>
+    dsimp only
+    split
+    · exact revOK_setUser h _
+    · exact revOK_delUser' (revOK_setUser h _) _
+  | some hm =>
+    dsimp only
+    split
+    · exact revOK_delUser' h _
+    · rename_i u1 _
+      have hs : RevOK (setUser { st1 with db := st1.db.putUser u1 } u1).1.hc :=
+        revOK_setUser (st := { st1 with db := st1.db.putUser u1 }) h u1
+      split
+      · exact hs
+      · exact revOK_delUser' hs _
+
 theorem revOK_step {st : St} (h : RevOK st.hc) (op : Op) : RevOK (step st op).1.hc := by
   cases op with
   | register name hm =>
     simp only [step]
     split
     · exact h
-    · cases hm with
-      | none => dsimp only; (refine revOK_setUser ?_ _; exact h)
-      | some hm =>
-        dsimp only
-        split
-        · exact h
-        · dsimp only; (refine revOK_setUser ?_ _; exact h)
+    · exact revOK_registerTail _ _ hm (by simpa [newUser] using h)
   | addHost id hm =>
     simp only [step]
     apply revOK_withUser h
